@@ -44,7 +44,29 @@ fn garbage_entry() -> BoxedStrategy<Entry> {
     .boxed()
 }
 
+/// One case in ~6000: a list of more than 2^16 entries — a forged disclosure first, 65 535 or more
+/// unreferenced well-formed fillers, the genuine disclosures after them.
+fn long_list_case() -> BoxedStrategy<Case> {
+    (issue_spec_strategy(ClaimCfg::LIGHT, HONEST_PATHS, Just(HolderKey::None).boxed()), proptest::sample::select(vec![65_535u32, 65_536, 65_600]), 0u8..8, any::<bool>())
+        .prop_map(|(issue, n, name, genuine_first)| {
+            let hidden = mark(&issue.claims, &issue.strat).map(|t| t.hidden_paths().len()).unwrap_or(0);
+            let genuine: Vec<Entry> = (0..hidden).map(|k| Entry::Genuine((((k as u64) * 65536 + hidden as u64 - 1) / hidden.max(1) as u64) as u16)).collect();
+            let mut entries = vec![Entry::Forged3 { name, value: serde_json::json!(true), real_salt: false }];
+            if genuine_first {
+                entries.extend(genuine.iter().take(1).cloned());
+            }
+            entries.push(Entry::Fillers(n));
+            entries.extend(genuine.into_iter().skip(if genuine_first { 1 } else { 0 }));
+            C03Case { issue, entries, kb: None }
+        })
+        .boxed()
+}
+
 pub fn strategy() -> BoxedStrategy<Case> {
+    prop_oneof![6000 => normal_strategy(), 1 => long_list_case()].boxed()
+}
+
+fn normal_strategy() -> BoxedStrategy<Case> {
     (
         issue_spec_strategy(ClaimCfg::FULL, HONEST_PATHS, Just(HolderKey::None).boxed()),
         vec(any::<u16>(), 0..48),
